@@ -682,32 +682,39 @@ def noSpurious (input : List Char) : Bool :=
 structure Branch where
   argsDelim : Delim
   args : List TT
+  arrow : Tok
   bodyDelim : Delim
   body : List TT
   semi : Option Tok
   deriving Repr, Inhabited
 
-/-- `parse_branch` applied until the stream is empty.  `fuel` is the number of trees (each branch
-takes at least three). -/
-def parseBranchesGo : Nat → List TT → Option (List Branch)
-  | _, [] => some []
-  | 0, _ :: _ => none
-  | fuel + 1, .delim d args :: .tok arrow :: .delim bd body :: rest =>
+/-- `parse_branch`: one `(..) => {..}` with the `;` behind it, and what is left of the stream. -/
+def parseBranch : List TT → Option (Branch × List TT)
+  | .delim d args :: .tok arrow :: .delim bd body :: rest =>
     if arrow.kind == .FatArrow then
       match rest with
       | .tok semi :: rest' =>
-        if semi.kind == .Semi then
-          (parseBranchesGo fuel rest').map (⟨d, args, bd, body, some semi⟩ :: ·)
-        else (parseBranchesGo fuel rest).map (⟨d, args, bd, body, none⟩ :: ·)
-      | _ => (parseBranchesGo fuel rest).map (⟨d, args, bd, body, none⟩ :: ·)
+        if semi.kind == .Semi then some (⟨d, args, arrow, bd, body, some semi⟩, rest')
+        else some (⟨d, args, arrow, bd, body, none⟩, rest)
+      | _ => some (⟨d, args, arrow, bd, body, none⟩, rest)
     else none
-  | _ + 1, _ => none
+  | _ => none
+
+/-- `while self.iter.peek().is_some() { branches.push(self.parse_branch()?) }`.  `fuel` bounds the
+number of rounds (each takes at least three trees). -/
+def parseBranchesGo : Nat → List TT → Option (List Branch)
+  | _, [] => some []
+  | 0, _ :: _ => none
+  | fuel + 1, t :: ts =>
+    match parseBranch (t :: ts) with
+    | none => none
+    | some (b, rest) => (parseBranchesGo fuel rest).map (b :: ·)
 
 /-- `MacroParser::parse` -/
 def parseBranches (ts : List TT) : Option (List Branch) := parseBranchesGo ts.length ts
 
-def Branch.trees (b : Branch) (arrow : Tok) : List TT :=
-  [.delim b.argsDelim b.args, .tok arrow, .delim b.bodyDelim b.body] ++
+def Branch.trees (b : Branch) : List TT :=
+  [.delim b.argsDelim b.args, .tok b.arrow, .delim b.bodyDelim b.body] ++
     (match b.semi with | some s => [.tok s] | none => [])
 
 /-! ## Macro calls: `macro_style`, `rewrite_macro_inner`, `parse_macro_args` -/
